@@ -43,26 +43,32 @@ func checkSelfClosingGuard(c *Ctx, r *Report) {
 		return
 	}
 	// name equality between sub-match 1 (opening tag name) and 3 (closing tag name) of one match
-	nameEq := func(cond ssa.Value) bool {
+	// returns (is a comparison of the two names, comparison is an inequality)
+	nameCmp := func(cond ssa.Value) (bool, bool) {
 		var x, y ssa.Value
+		neq := false
 		switch v := cond.(type) {
 		case *ssa.Call:
 			o := CalleeObj(v)
 			if o == nil || o.Pkg() == nil || o.Pkg().Path() != "bytes" || o.Name() != "Equal" || len(v.Call.Args) != 2 {
-				return false
+				return false, false
 			}
 			x, y = v.Call.Args[0], v.Call.Args[1]
 		case *ssa.BinOp:
-			if v.Op.String() != "==" {
-				return false
+			switch v.Op.String() {
+			case "==":
+			case "!=":
+				neq = true
+			default:
+				return false, false
 			}
 			x, y = v.X, v.Y
 		default:
-			return false
+			return false, false
 		}
 		bx, ix, okx := submatchIndex(x)
 		by, iy, oky := submatchIndex(y)
-		return okx && oky && bx == by && ((ix == 1 && iy == 3) || (ix == 3 && iy == 1))
+		return okx && oky && bx == by && ((ix == 1 && iy == 3) || (ix == 3 && iy == 1)), neq
 	}
 	n := 0
 	allInstrs(fn, func(in ssa.Instruction) {
@@ -81,8 +87,8 @@ func checkSelfClosingGuard(c *Ctx, r *Report) {
 		construct := fmt.Sprintf("rewrite #%d in ForceSelfClosingTags", n)
 		neq := false
 		if guardedBy(call, func(cond ssa.Value, truth bool) bool {
-			if nameEq(cond) {
-				if truth {
+			if is, ne := nameCmp(cond); is {
+				if truth != ne {
 					return true
 				}
 				neq = true
